@@ -136,6 +136,8 @@ static void build(World& w) {
   m.Emplace(CstType::term, "Pr1(S1)");
   m.Emplace(CstType::function, "[\xCE\xB1\xE2\x88\x88" + BOOL + "(R1)] \xCE\xB1" + UNION + "\xCE\xB1");
   m.Emplace(CstType::predicate, "[\xCE\xB1\xE2\x88\x88" + BOOL + "(X1)] \xCE\xB1=\xCE\xB1");
+  m.Emplace(CstType::function, "[\xCF\x83\xE2\x88\x88" + BOOL + "(Z)] card(\xCF\x83)+card(\xCF\x83)+card(\xCF\x83)+card(\xCF\x83)+card(\xCF\x83)");                         // F2: value-only use far into the body
+  m.Emplace(CstType::predicate, "[\xCF\x83\xE2\x88\x88" + BOOL + BOOL + "(X1)] \xE2\x88\x80\xCE\xBE\xE2\x88\x88X1 \xE2\x88\x83\xCE\xB6\xE2\x88\x88\xCF\x83 \xCE\xBE\xE2\x88\x88\xCE\xB6 & card(\xCF\x83)=card(\xCF\x83)");   // P2
   m.Emplace(CstType::axiom, "D1=D1");
   m.Emplace(CstType::theorem, "1=1");
   for (int i = 0; i < 3; ++i) m.Values().AddBasicElement(x1, "a" + std::to_string(i));
@@ -151,7 +153,7 @@ static void build(World& w) {
 // ---------------------------------------------------------------- inputs
 static std::string tokenSoup(vh::Rng& rng, int n) {
   static const std::vector<std::string> toks = {
-    "X1", "X2", "C1", "S1", "D1", "D2", "F1", "P1", "A1", "T1", "R1", "a", "b", "\xCE\xBE", "\xCE\xB1", "1", "0", "2147483647", "99999999999", "9223372036854775807", "9223372036854775808", "18446744073709551616", "123456789012345678901234567890",
+    "X1", "X2", "C1", "S1", "D1", "D2", "F1", "P1", "F2", "P2", "A1", "T1", "R1", "a", "b", "\xCE\xBE", "\xCE\xB1", "1", "0", "2147483647", "99999999999", "9223372036854775807", "9223372036854775808", "18446744073709551616", "123456789012345678901234567890",
     "pr99999999999999999999", "Pr9223372036854775808", "Fi18446744073709551616", "00000000000000000000000001",
     "+", "-", "*", "=", "<", ">", "\xE2\x89\xA0", "\xE2\x88\x88", "\xE2\x88\x89", "\xE2\x8A\x86", "\xE2\x8A\x82", "\xE2\x88\xAA", "\xE2\x88\xA9", "\\", "\xE2\x88\x86", "\xC3\x97", "\xE2\x84\xAC",
     "\xE2\x88\x80", "\xE2\x88\x83", "\xC2\xAC", "&", "\xE2\x88\xA8", "\xE2\x87\x92", "\xE2\x87\x94", "(", ")", "{", "}", "[", "]", "|", ",", ";", ":=", ":==", "::=", ":\xE2\x88\x88",
@@ -181,6 +183,7 @@ static const std::vector<std::string>& structured() {
   static const std::vector<std::string> v = {
     "X1", "X1" + UNION + "D1", "D{" + XI + IN + "X1 | " + XI + IN + "D1}", "\xE2\x88\x80" + XI + IN + "X1 " + XI + "=" + XI, "F1[X1]", "P1[X1]", "A1", "A1+1", "A1=A1", "{A1}",
     "A1" + UNION + "X1", "card(A1)", "\xE2\x88\x85", "pr0(S1)", "Pr0(S1)", "Fi0[X1](S1)", "I{1 | a:" + IN + "X1}", "2147483647+1", "debool(X1)", "red(S1)",
+    "F2[Z]", "P2[" + BOOL + "(X1)]", "F2[Z]=1", "P2[" + BOOL + "(X1)] & 1=1", "F1[" + BOOL + "(X1)]", "card(F2[Z])",
     "9223372036854775808", "X1=99999999999999999999", "pr99999999999999999999(S1)", "Fi99999999999999999999[X1](S1)", "{18446744073709551616}",
     "R{" + XI + ":=0 | " + XI + "+1}", "card(" + BOOL + BOOL + "(X1\xC3\x97X1\xC3\x97X1))", "[\xCE\xB1" + IN + "X1] A1", "S7::=S1", "D3:==", "1=1 & A1", "Fi1[zz](\xE2\x88\x85)", "X1 \\union X2", "a \\ls b" };
   return v;
